@@ -9,13 +9,20 @@ def main():
     what = args[0]
     rest = args[1:]
     i = 0
+    replay = None
     while i < len(rest):
         if rest[i] == "--tier" and i + 1 < len(rest):
             os.environ["VERIF_TIER"] = rest[i + 1]
             i += 2
+        elif rest[i] == "--replay" and i + 1 < len(rest):
+            replay = rest[i + 1]
+            i += 2
         else:
             i += 1
     import base  # noqa: F401  (stand-in parser, sys.path)
+    if replay:
+        import replaytool
+        return replaytool.replay(replay)
     name = what.lower()
     try:
         mod = importlib.import_module("checks." + name)
